@@ -10,7 +10,10 @@ Checked per case (implementation only, these decide the property):
            same partitioning, result is valid
   pickle   pickle.loads(pickle.dumps(ak.Array | ak.Record)), protocols 2..5: same value, type, partitioning
   numpy    to_numpy(a) == to_list(a) when it succeeds, must succeed on rectilinear numeric (+ option) data;
-           from_numpy(to_numpy(a)) has a's value; from_numpy(x) then to_numpy gives x back (n-d, masked, strided)
+           from_numpy(to_numpy(a)) has a's value (numeric and string / bytestring leaves);
+           from_numpy(x) and ak.Array(x) have the value x.tolist() (python-only reference: the NumPy array printed item by
+           item), then to_numpy gives x back (n-d, masked, strided, transposed; numeric, 'U' and 'S' dtypes - every UTF-8 width,
+           bytes >= 0x80, embedded / trailing NUL, empty strings, padded and byte-swapped items)
   arrow    to_arrow(a, list_to32, string_to32, allow_tensor): pyarrow's validate(full) passes, to_pylist() == to_list(a),
            from_arrow(.) has a's value and the same type up to Arrow's documented losses
 plus the model as a voter (bufrun): container keys and integer contents, form, lengths recomputed by
@@ -42,12 +45,18 @@ ENV_SKIPS = os.path.join(C.VERIF, 'c16', 'env_skips.json')
 CORPUS = os.path.join(C.VERIF, 'corpus', 'C16')
 
 RULE = ('value-first random layouts (harness/gen.py: every node class, 32/U32/64-bit indexes, non-zero-based offsets, '
-        'ListArray gaps/shuffles, unreachable content, five option encodings, strings/bytestrings, records, tuples, unions) '
+        'ListArray gaps/shuffles, unreachable content, five option encodings, strings/bytestrings, records, tuples, unions; '
+        '~10 % of the layouts hold one WIDE record or tuple: 10..13 (sometimes up to 23) fields, named f0.. / shuffled digit names / letters or '
+        'unnamed, mostly leaves of different dtypes, at the top or below lists / options / records / tuples / unions, so that field and '
+        'slot order is exercised beyond one digit) '
         'post-processed with: extra leaf dtypes (float16, complex64/128, datetime64/timedelta64 with units), n-d NumpyArray '
         'leaves, __record__ names and arbitrary JSON parameters, VirtualArray wrappers (form/length declared or not), '
         'categorical wrappers; x operation buffers (form_key and key_format default/custom/callable, partition_start, '
         'partitions by slicing / ak.partitioned / ak.repartition) | pickle (protocol 2..5, Array or Record) | numpy | numpy2 '
-        '(raw n-d ndarray, masked, strided, transposed) | arrow (list_to32 x string_to32 x allow_tensor, partitions); '
+        '(raw n-d ndarray, masked, strided, transposed; 40 % of them NumPy string arrays: dtype U / S, natural or padded width, native or '
+        'swapped byte order, text drawn from ASCII, accented Latin, Greek/Cyrillic (2 bytes), euro sign/symbols, CJK/Hangul (3 bytes), '
+        'emoji/astral (4 bytes), NUL, lone surrogates, bytes >= 0x80, empty strings; the numpy stream has the same text as string / '
+        'bytestring leaves of rectilinear arrays) | arrow (list_to32 x string_to32 x allow_tensor, partitions); '
         'non-trivial = the input value contains a non-empty list/record or a None; distinct by case text')
 ASSUMPTIONS = [
     'the Python layer runs under pyshim (Python 3.12, NumPy 2, pyarrow 25): src/python/*.cpp is replaced by pyshim; exceptions '
@@ -56,6 +65,11 @@ ASSUMPTIONS = [
     'Arrow: tuples come back as records with keys "0","1",..; option-ness at top level, regular vs variable lists without tensors, '
     'index widths and unknown types are outside the promise; union-of-option vs option-of-union are identified',
     'to_numpy must succeed only on rectilinear numeric/bool/option data; elsewhere a ValueError is accepted, a wrong value is not',
+    'NumPy string arrays (U / S dtype): python-only voter - the reference is the NumPy array itself read item by item (x.tolist(), masked '
+    'items = None) against ak.to_list(from_numpy(x)) / ak.to_list(ak.Array(x)) and against to_numpy(from_numpy(x)); the Rocq model of '
+    'from_numpy / to_numpy (Buffers.v: numeric n-d arrays) has no notion of strings and bufrun does not vote on the numpy streams; item width '
+    'and byte order of U / S dtypes are storage, only the kind must survive; a trailing NUL cannot be held by a NumPy item (it is the padding), '
+    'so strings compare modulo trailing NULs where NumPy is on one side only',
     'model voter (bufrun) covers non-partitioned, non-virtual arrays with core dtypes (bool, (u)int8..64, float32/64), __array__ / '
     '__record__ parameters only, all three form_key / key_format styles; the other cases are decided by the implementation-only checks',
     'inputs that run into a registered defect of the pinned tree are kept at ~12 % of their natural rate (risk tags in the evidence)',
@@ -276,9 +290,11 @@ def nontrivial_value(vals):
 
 
 def rect_type(rng, depth):
-    """a rectilinear type for the numpy stream: lists over a numeric/bool leaf, options anywhere"""
+    """a rectilinear type for the numpy stream: lists over a numeric/bool (sometimes string / bytestring) leaf, options anywhere"""
     dt = rng.choice(['int64', 'float64', 'int32', 'bool', 'uint8', 'int16', 'float32', 'uint64'])
     t = ('leaf', dt)
+    if rng.random() < 0.18:
+        t = ('str', rng.random() < 0.7)
     if rng.random() < 0.4:
         t = ('opt', t)
     for _ in range(depth):
@@ -288,24 +304,186 @@ def rect_type(rng, depth):
     return t
 
 
-def rect_values(rng, t, n, sizes, level=0):
+def rect_values(rng, t, n, sizes, level=0, used=None):
     """values of a rectilinear type: every list at one level has the same length"""
+    prof = [None]
+
     def one(t, level):
         if t[0] == 'leaf':
             return G.leaf_value(rng, t[1], True)
+        if t[0] == 'str':
+            if prof[0] is None:
+                prof[0] = text_profile(rng) if t[1] else (rng.random() < 0.75, rng.random() < 0.3)
+            b = gen_text(rng, prof[0], used).encode('utf-8', 'surrogateescape') if t[1] else gen_bytes(rng, prof[0][0], prof[0][1], used)
+            return ('$str', t[1], list(bytearray(b)))
         if t[0] == 'opt':
             return None if rng.random() < 0.25 else one(t[1], level)
         return [one(t[1], level + 1) for _ in range(sizes[level])]
     return [one(t, 0) for _ in range(n)]
 
 
+# ---- text for NumPy 'U' / 'S' arrays and for string leaves: every UTF-8 width, not only ASCII
+CHARSETS = {
+    'ascii': u'abcXYZ 019_"\\~',
+    'latin': u'\u00e9\u00f6\u00f1\u00fc\u00df\u00c5\u00e7\u00ff',             # 2 bytes in UTF-8 (accented Latin)
+    'greek': u'\u03b1\u03b2\u03b3\u03b4\u03a9\u03bb\u0416\u044f',             # 2 bytes (Greek, Cyrillic)
+    'euro': u'\u20ac\u2260\u2192',                                          # 3 bytes (euro sign, symbols)
+    'cjk': u'\u65e5\u672c\u8a9e\u4e2d\u6587\ud55c',                           # 3 bytes (CJK, Hangul)
+    'emoji': u'\U0001F600\U0001F389\U0001D11E\U00020BB7',                   # 4 bytes (outside the BMP)
+    'nul': u'\x00',                                                         # embedded / trailing NUL
+    'surrogate': u'\udc80\udcff\udce9',                                     # lone surrogates = undecodable bytes (surrogateescape)
+}
+NONASCII = ['latin', 'greek', 'euro', 'cjk', 'emoji']
+
+
+def text_profile(rng, ascii_only=False, surrogates=True):
+    """the character classes one case draws from"""
+    if ascii_only or rng.random() < 0.2:
+        cl = ['ascii']
+    else:
+        cl = ['ascii'] + rng.sample(NONASCII, rng.choice([1, 1, 2, 3, 5]))
+    if rng.random() < 0.2:
+        cl.append('nul')
+    if surrogates and not ascii_only and rng.random() < 0.08:
+        cl.append('surrogate')
+    return cl
+
+
+def gen_text(rng, classes, used=None):
+    """one str; `used` collects the classes that really occur"""
+    n = rng.choice([0, 1, 1, 2, 3, 3, 5, 8])
+    out = []
+    for _ in range(n):
+        k = rng.choice(classes)
+        if k == 'nul' and rng.random() < 0.5:
+            k = 'ascii'
+        out.append(rng.choice(CHARSETS[k]))
+        if used is not None:
+            used.add(k)
+    if used is not None and n == 0:
+        used.add('empty')
+    if used is not None and out and out[-1] == u'\x00':
+        used.add('trailing-nul')
+    return u''.join(out)
+
+
+def gen_bytes(rng, high, nul, used=None):
+    n = rng.choice([0, 1, 1, 2, 3, 3, 5, 8])
+    out = []
+    for _ in range(n):
+        r = rng.random()
+        if nul and r < 0.12:
+            out.append(0)
+            used is not None and used.add('nul')
+        elif high and r < 0.6:
+            out.append(rng.choice([0x80, 0xff, 0xc3, 0xa9, 0xe2, 0x82, 0xac, 0xf0, 0x9f]) if rng.random() < 0.5 else rng.randint(0x80, 0xff))
+            used is not None and used.add('high')
+        else:
+            out.append(rng.choice([97, 98, 65, 32, 48, 92, 34, 126]))
+            used is not None and used.add('ascii')
+    if used is not None and n == 0:
+        used.add('empty')
+    if used is not None and out and out[-1] == 0:
+        used.add('trailing-nul')
+    return bytes(bytearray(out))
+
+
+def hexatom(b):
+    return 'x' + (b.encode('utf-8', 'surrogateescape') if not isinstance(b, bytes) else b).hex()
+
+
+def gen_string_ndarray(rng, n):
+    """(dtype text, data atoms, tags) of a NumPy 'U' or 'S' array with n items"""
+    used = set()
+    if rng.random() < 0.7:
+        kind = 'U'
+        cl = text_profile(rng)
+        items = [gen_text(rng, cl, used) for _ in range(n)]
+        width = max([len(x) for x in items] + [1])
+        order = '>' if rng.random() < 0.12 else ''
+    else:
+        kind = 'S'
+        high, nul = rng.random() < 0.75, rng.random() < 0.3
+        items = [gen_bytes(rng, high, nul, used) for _ in range(n)]
+        width = max([len(x) for x in items] + [1])
+        order = ''
+    if rng.random() < 0.3:
+        dt = '%s%s%d' % (order, kind, width + rng.choice([1, 2, 5]))           # wider items than needed (NUL padding)
+        wd = 'padded'
+    else:
+        dt = order + kind
+        wd = 'natural'
+    tags = dict(dtype=kind, str_width=wd, str_byteorder='swapped' if order else 'native',
+                str_content=('non-ascii' if used & set(NONASCII + ['surrogate', 'high']) else 'ascii-only'))
+    for k in used:
+        tags['str_' + k] = 1
+    return dt, [hexatom(x) for x in items], tags
+
+
+# ---- wide records / tuples: field and slot ORDER beyond one digit (10 or more fields)
+WIDE_LEAVES = ['int64', 'int64', 'float64', 'bool', 'int32', 'uint8', 'float32', 'int16', 'uint64', 'int8']
+WIDE_RATE = 0.10
+
+
+def wide_type(rng, depth):
+    """a type holding one record / tuple with 10.. fields, at the top or below lists / options / records / unions.
+    returns (type, tags)"""
+    k = rng.choice([10, 11, 11, 12, 12, 13, 13, rng.randint(14, 23)])
+    istuple = rng.random() < 0.5
+    style = rng.choice(['f-number', 'digits-shuffled', 'letters'])
+    if style == 'f-number':
+        names = ['f%d' % j for j in range(k)]                     # f10 sorts before f2 as text
+    elif style == 'digits-shuffled':
+        names = [str(j) for j in range(k)]                        # named fields that look like slot numbers, in another order
+        rng.shuffle(names)
+    else:
+        names = rng.sample([a + b for a in 'abcxyz' for b in ['', '1', '_t', 'Z']], k)
+    fields = []
+    for j in range(k):
+        if rng.random() < 0.78:
+            ft = ('leaf', rng.choice(WIDE_LEAVES))
+        else:
+            ft = G.gen_type(rng, max(0, min(depth, 3) - 1))
+        fields.append((names[j], ft))
+    t = ('rec', fields, istuple)
+    where = rng.choice(['top', 'top', 'top', 'list', 'list', 'option', 'list-option', 'list-list', 'field', 'tuple-slot', 'union'])
+    if where == 'list':
+        t = ('list', t)
+    elif where == 'option':
+        t = ('opt', t)
+    elif where == 'list-option':
+        t = ('list', ('opt', t))
+    elif where == 'list-list':
+        t = ('list', ('list', t))
+    elif where == 'field':
+        t = ('rec', [('a', ('leaf', 'int64')), ('w', ('list', t) if rng.random() < 0.5 else t)], False)
+    elif where == 'tuple-slot':
+        t = ('rec', [('0', t), ('1', ('leaf', 'float64'))], True)
+    elif where == 'union':
+        t = ('union', [('leaf', 'bool'), t])
+    tags = dict(wide='%s:%d' % ('tuple' if istuple else 'record', k), wide_at=where)
+    if not istuple:
+        tags['wide_names'] = style
+    return t, tags
+
+
+def gen_array_of(rng, t, enc_kw=None, n=None):
+    """G.gen_array for a given type"""
+    n = rng.choice([0, 1, 2, 3, 3, 4, 5]) if n is None else n
+    vals = G.rectangularise(rng, t, [G.gen_value(rng, t, 4, True) for _ in range(n)])
+    enc = G.Enc(rng, **dict(dict(special=True), **(enc_kw or {})))
+    lay = G.encode(enc, t, vals)
+    return dict(type=t, vals=vals, layout=lay, stats=enc.stats)
+
+
 def gen_case1(rng, i, tier):
     r = rng.random()
-    op = 'buffers' if r < 0.40 else 'pickle' if r < 0.52 else 'numpy' if r < 0.68 else 'numpy2' if r < 0.76 else 'arrow'
+    op = 'buffers' if r < 0.40 else 'pickle' if r < 0.52 else 'numpy' if r < 0.68 else 'numpy2' if r < 0.80 else 'arrow'
     cid = 'c%d' % i
     opts = []
     tags = dict(op=op)
     if op == 'numpy2':
+        strings = rng.random() < 0.4
         dt = rng.choice(['int64', 'float64', 'int32', 'bool', 'uint8', 'int16', 'float32', 'uint16', 'int8', 'uint32', 'uint64',
                          'float16', 'complex64', 'complex128', 'datetime64[s]', 'timedelta64[ms]', 'datetime64[ns]'])
         nd = rng.choice([1, 1, 2, 2, 3])
@@ -313,8 +491,12 @@ def gen_case1(rng, i, tier):
         n = 1
         for s in shape:
             n *= s
-        base = 'float64' if dt in ('float16', 'complex64', 'complex128') else 'int64' if '[' in dt else dt
-        data = [G.leaf_value(rng, base, True) for _ in range(n)]
+        if strings:
+            dt, data, stags = gen_string_ndarray(rng, n)
+            tags.update(stags)
+        else:
+            base = 'float64' if dt in ('float16', 'complex64', 'complex128') else 'int64' if '[' in dt else dt
+            data = [G.leaf_value(rng, base, True) for _ in range(n)]
         if dt.startswith('complex'):
             data = [x if rng.random() < 0.5 or x != x or abs(x) == float('inf') else ['c', x, rng.randint(-3, 3)] for x in data]
         if '[' in dt:
@@ -333,20 +515,34 @@ def gen_case1(rng, i, tier):
             opts.append(['step', rng.choice([2, -1])])
             tags['step'] = 1
         lay = ['np', dt, shape, data]
-        tags['dtype'] = dt
+        tags.setdefault('dtype', dt)
         tags['ndim'] = nd
         return C.Case(cid, op, [G.sx(opts)], [G.sx(lay)], dict(nontrivial=n > 0, tags=tags, tree=lay, opts=opts))
 
     special = True
     type_kw = {}
     o = dict(dtypes=rng.random() < 0.5, nd=True, params=rng.random() < 0.5, virt=0.04 if rng.random() < 0.3 else 0)
+    wide = rng.random() < WIDE_RATE
+
+    def wide_array(depth, enc_kw=None):
+        t, wtags = wide_type(rng, depth)
+        tags.update(wtags)
+        return gen_array_of(rng, t, enc_kw, n=rng.choice([0, 1, 1, 2, 2, 3, 4]))
     if op == 'numpy':
-        if rng.random() < 0.7:
+        if wide:
+            a = wide_array(1)
+            tags['rect'] = 0
+        elif rng.random() < 0.7:
             depth = rng.choice([0, 1, 1, 2, 3])
             t = rect_type(rng, depth)
             n = rng.choice([0, 1, 2, 3, 4])
             sizes = [rng.choice([0, 1, 2, 3]) for _ in range(depth + 1)]
-            vals = rect_values(rng, t, n, sizes)
+            used = set()
+            vals = rect_values(rng, t, n, sizes, used=used)
+            if used:
+                tags['str_content'] = 'non-ascii' if used & set(NONASCII + ['surrogate', 'high']) else 'ascii-only'
+                for k in used:
+                    tags['str_' + k] = 1
             tags['zero'] = int(n == 0 or 0 in sizes)
             enc = G.Enc(rng, special=True)
             lay = G.encode(enc, t, vals)
@@ -359,13 +555,15 @@ def gen_case1(rng, i, tier):
         o['params'] = False
         o['dtypes'] = rng.random() < 0.3
     elif op == 'arrow':
-        a = G.gen_array(rng, depth=rng.choice([1, 2, 3, 3]), canonical_too=False)
+        a = wide_array(rng.choice([1, 2, 3])) if wide else G.gen_array(rng, depth=rng.choice([1, 2, 3, 3]), canonical_too=False)
         o['ascii'] = True
         o['dtypes'] = rng.random() < 0.25
         o['params'] = rng.random() < 0.2
         l32, s32, tensor = rng.choice([0, 1]), rng.choice([0, 1]), rng.choice([0, 1])
         opts += [['l32', l32], ['s32', s32], ['tensor', tensor]]
         tags.update(l32=l32, s32=s32, tensor=tensor)
+    elif wide:
+        a = wide_array(rng.choice([1, 2, 3]), dict(weird_empty=0.05))
     else:
         a = G.gen_array(rng, depth=rng.choice([1, 2, 3, 3, 4]), canonical_too=False, enc_kw=dict(weird_empty=0.05))
     lay = post(rng, a['layout'], o)
@@ -420,6 +618,10 @@ def has_empty_buffer(t):
     return any(has_empty_buffer(t[i]) for i in children_idx(t))
 
 
+def is_string_ndarray(t):
+    return is_node(t) and t[0] == 'np' and bool(re.match(r'^[<>=|]?[US]\d*$', str(t[1])))
+
+
 def risks(c):
     tree, op, o = c.meta['tree'], c.op, dict((x[0], x[1:]) for x in c.meta['opts'])
     out = []
@@ -436,6 +638,13 @@ def risks(c):
         out.append('zero-dimension')
     if op == 'numpy' and c.meta['tags'].get('zero') and 'zero-dimension' not in out:
         out.append('zero-dimension')
+    if op == 'numpy2' and is_string_ndarray(tree):
+        if o.get('mask') == ['nomask'] and len(tree[2]) > 1:
+            out.append('string-nd-nomask')
+        if 'mask' in o and isinstance(o['mask'][0], list) and o['mask'][0] and all(int(b) != 0 for b in o['mask'][0]):
+            out.append('string-all-masked')
+        if tree[1].lstrip('<>|=').startswith('S') and 'step' in o:
+            out.append('bytestring-strided')
     if op in ('arrow', 'numpy') and tree_feature(tree, lambda t: t[0] == 'rec' and len(t) == 3):
         out.append('record-without-fields')
     if op == 'arrow' and any(k in o for k in ('parts', 'partitioned', 'repart')) and c.meta.get('n', 1) == 0:
@@ -814,6 +1023,12 @@ def types_equal_without_parameters(a, b):
     return a != b and drop_parameters(a) == drop_parameters(b)
 
 
+def alt_is_string(x):
+    while x[0] in ('ix', 'parx', 'virt'):
+        x = x[3]
+    return x[0] == 'par' and x[1] in ('string', 'bytestring')
+
+
 def auto_sig(c, obl, what, lines):
     """structural signature of a finding (key into known_findings.json): from the operation, the stage / message and
     features of the input layout"""
@@ -854,6 +1069,22 @@ def auto_sig(c, obl, what, lines):
             return 'buffers-trimmed-content-under-untrimmed-parent'
         if c.meta.get('empty_buffer') and re.search(r'buffers/(bytes|json)', what):
             return 'buffers-bytes-empty-buffer'
+    if c.op == 'numpy2' and is_string_ndarray(tree):
+        shape = [int(x) for x in tree[2]]
+        if "'ListArray64' object has no attribute 'size'" in text and copt(c, 'mask') == 'nomask' and len(shape) > 1:
+            return 'from_numpy-string-nd-unmasked'
+        if 'the last axis must be contiguous' in text and tree[1].lstrip('<>|=').startswith('S') and copt(c, 'step') is not None:
+            return 'from_numpy-bytestring-not-contiguous'
+        if c.meta.get('nothing_to_see') and 'dtype/shape changed' in what and re.search(r'[<>|]?[US]\d+ \([\d ]*\) -> float64 ', what):
+            return 'to_numpy-no-string-to-see-float64'        # zero items, or every item masked
+        if len(shape) >= 3 and 0 in shape[2:] and re.search(r'numpy2/(from_nd|ctor): .* has another value than x', what):
+            return 'from_numpy-string-nd-zero-dimension-length'
+    if c.op == 'numpy' and "'ListArray64' object has no attribute 'size'" in text and re.search(r'numpy/back_m_(nd|reg) raised', what) and \
+            tree_feature(tree, lambda t: t[0] == 'par' and t[1] in ('string', 'bytestring')):
+        return 'from_numpy-string-nd-unmasked'       # to_numpy(allow_missing=True) of n-d strings without None: a MaskedArray with nomask
+    if c.op == 'numpy' and 'to_numpy(a) differs from to_list(a)' in what and re.search(r'# to_numpy: .*\((s|b)[ )]', text) and tree_feature(
+            tree, lambda t: t[0] == 'un' and any(alt_is_string(x) for x in t[4:]) and not all(alt_is_string(x) for x in t[4:])):
+        return 'to_numpy-union-number-string-promotion'
     if c.op in ('numpy', 'numpy2'):
         if tree_feature(tree, lambda t: t[0] == 'rec' and len(t) == 3):
             return 'numpy-record-without-fields'
@@ -1080,6 +1311,13 @@ def np_equiv(a, b, boolnum=False):
         if isinstance(x, list) and x and x[0] == 'l':
             return all(leaves_all_none(y) for y in x[1:])
         return x == 'none'
+    if isinstance(a, list) and a and a[0] in ('s', 'b') and isinstance(b, list) and b and b[0] == a[0]:
+        a, b = list(a), list(b)          # NumPy's fixed-width 'U' / 'S' items cannot end in NUL (it is their padding)
+        while len(a) > 1 and a[-1] == '0':
+            a.pop()
+        while len(b) > 1 and b[-1] == '0':
+            b.pop()
+        return a == b
     if isinstance(a, list) and a and a[0] == 't':          # NumPy has no tuples: structured arrays with fields "0", "1", ..
         a = arrow_norm_value(a)
     if isinstance(b, list) and b and b[0] == 't':
@@ -1092,7 +1330,7 @@ def np_equiv(a, b, boolnum=False):
         return leaves_all_none(a)
     if isinstance(a, list) and isinstance(b, list):
         return len(a) == len(b) and all(np_equiv(x, y, boolnum) for x, y in zip(a, b))
-    if boolnum:
+    if boolnum and not isinstance(a, list) and not isinstance(b, list):
         m = {'true': '1', 'false': '0'}
         return m.get(a, a) == m.get(b, b)
     return a == b
@@ -1101,8 +1339,11 @@ def np_equiv(a, b, boolnum=False):
 NUMERIC_LEAF = re.compile(r'^(bool|u?int(8|16|32|64)|float(16|32|64)|complex(64|128))$')
 
 
-def type_is_rect_numeric(ts):
-    """type string made only of N *, var *, ?, option[...] and a numeric leaf"""
+STRING_LEAF = re.compile(r'^(string|bytes)$')
+
+
+def type_is_rect_numeric(ts, leaf=NUMERIC_LEAF):
+    """type string made only of N *, var *, ?, option[...] and a numeric leaf (or a leaf of the kind given)"""
     s = ts
     s = re.sub(r'^\d+ \* ', '', s)
     while True:
@@ -1115,7 +1356,7 @@ def type_is_rect_numeric(ts):
             s = m.group(1)
             continue
         break
-    return bool(NUMERIC_LEAF.match(s))
+    return bool(leaf.match(s))
 
 
 def check_numpy(V, c, res, skips):
@@ -1136,7 +1377,7 @@ def check_numpy(V, c, res, skips):
     rect = is_rect(iv)
     has_none = 'none' in ivt.replace('(', ' ').replace(')', ' ').split()
     must_ok = rect is not False and type_is_rect_numeric(ts) and not is_partitioned(c)
-    back_domain = type_is_rect_numeric(ts)          # "rectilinear and masked data": records / strings are outside
+    back_domain = type_is_rect_numeric(ts) or type_is_rect_numeric(ts, STRING_LEAF)   # "rectilinear and masked data": records are outside
     good = True
     any_ok = False
     for nm, am in (('tonp_m', True), ('tonp', False)):
@@ -1204,6 +1445,13 @@ def sig_numpy(c, ts, ivt, kind):
     return None
 
 
+def np_dtype_class(ds):
+    """what must survive of a dtype: all of it, except for 'U' / 'S' where the item width and the byte order are storage
+    (to_numpy sizes the items by the longest string), not value"""
+    m = re.match(r'^[<>=|]?([US])\d*$', ds)
+    return m.group(1) if m else ds
+
+
 def check_numpy2(V, c, res, skips):
     items = res[2:]
     obl = 'impl:to_numpy(from_numpy)'
@@ -1212,9 +1460,22 @@ def check_numpy2(V, c, res, skips):
     if inf is None:
         return 'skip'
     ivt = val_text(inf)
+    c.meta['nothing_to_see'] = not [w for w in ivt.replace('(', ' ').replace(')', ' ').split() if w not in ('l', 'none')]
     masked = get(inf, 'masked') == '1'
     has_none = 'none' in ivt.replace('(', ' ').replace(')', ' ').split()
     good = True
+    # the ak.Array constructor takes an ndarray through from_numpy: same value, valid
+    ct = check_stage(V, c, skips, 'ctor', fld(items, 'ctor'), obl)
+    if ct is not None:
+        if val_text(ct) != ivt:
+            V.add('viol', obl, 'numpy2/ctor: ak.Array(x) has another value than x', c,
+                  [case_line(c), '# x:  ' + short(ivt), '# ak: ' + short(val_text(ct) or '?')], sig=None)
+            good = False
+        elif get(ct, 'valid') != '1':
+            V.add('viol', obl, 'numpy2/ctor: ak.Array(x) is not valid', c, [case_line(c)], sig=None)
+            good = False
+    else:
+        good = False
     for ra in ('nd', 'reg'):
         st = 'from_' + ra
         f = check_stage(V, c, skips, st, fld(items, st), obl)
@@ -1242,7 +1503,8 @@ def check_numpy2(V, c, res, skips):
                 V.add('viol', obl, 'numpy2/%s: to_numpy(from_numpy(x)) differs from x' % st2, c,
                       [case_line(c), '# x:    ' + short(ivt), '# back: ' + short(val_text(g) or '?')], sig=None)
                 good = False
-            elif get(g, 'dtype') != get(inf, 'dtype') or unparse(fld(g, 'shape')[1]) != unparse(fld(inf, 'shape')[1]):
+            elif np_dtype_class(unhx(get(g, 'dtype'))) != np_dtype_class(unhx(get(inf, 'dtype'))) or \
+                    unparse(fld(g, 'shape')[1]) != unparse(fld(inf, 'shape')[1]):
                 # empty arrays lose inner dimensions only if the value is the same; dtype must survive
                 V.add('viol', obl, 'numpy2/%s: dtype/shape changed: %s %s -> %s %s' % (
                     st2, unhx(get(inf, 'dtype')), unparse(fld(inf, 'shape')[1]), unhx(get(g, 'dtype')), unparse(fld(g, 'shape')[1])),
